@@ -110,7 +110,7 @@ def run(ctx):
                         gt = ev("current_target_efficiency_adaptive", e0=mp.mpf(te[0]), e1=mp.mpf(te[1]),
                                 rate=mp.mpf(sk.get("target_efficiency_rate", 1.0)), beta=mp.mpf(beta_prev))
                     else:
-                        gt = ev("current_target_efficiency_scalar", e=mp.mpf(te), beta=mp.mpf(beta_prev))
+                        gt = ev("current_target_efficiency_scalar", e=mp.mpf(float(te)), beta=mp.mpf(beta_prev))
                     if abs(float(gt) - target) > 1e-12 and tie["current_target_efficiency"][0]:
                         tie["current_target_efficiency"] = [False, f"IR {float(gt)} vs impl {target}"]
                 except Exception as e:
